@@ -71,16 +71,18 @@ def popFail (w : World) : Bool × World :=
   | [] => (false, w)
   | f :: rest => (f, { w with env := { w.env with storeFail := rest } })
 
+/-- Effect of a successful storage operation. -/
+def applyOp (op : StoreOp) (s : Store) : Store :=
+  match op with
+  | .set k v => { s with pending := (k, some v) :: s.pending }
+  | .remove k => { s with pending := (k, none) :: s.pending }
+  | .commit => s.commit
+
 /-- Returns whether the operation succeeded. -/
 def storeOp (op : StoreOp) (w : World) : Bool × World :=
   let (fail, w) := popFail w
   if fail then (false, emit (.storage op false) w)
-  else
-    let st := match op with
-      | .set k v => { w.store with pending := (k, some v) :: w.store.pending }
-      | .remove k => { w.store with pending := (k, none) :: w.store.pending }
-      | .commit => w.store.commit
-    (true, emit (.storage op true) { w with store := st })
+  else (true, emit (.storage op true) { w with store := applyOp op w.store })
 
 def storeOp_ (op : StoreOp) (w : World) : World := (storeOp op w).2
 
@@ -580,40 +582,73 @@ def reportAttemptsInstall (success : Bool) (w : World) : World :=
 def setLastUpdate (w : World) : World :=
   { w with ctx := { w.ctx with sched := { w.ctx.sched with lastUpdate := some (.complex ⟨w.clock.wall, w.clock.mono⟩) } } }
 
+/-- The `install_success` fold of `start_update_check`. -/
+def installSuccess (rs : List AppResp) : Option Bool :=
+  rs.foldl (fun acc r =>
+    match acc, r.result with
+    | _, .installError => some false
+    | none, .updated => some true
+    | acc, _ => acc) none
+
+/-- The three closing events of every check, then the data is persisted. -/
+def closeCheck (r : Except CheckErr (List AppResp)) (w : World) : World :=
+  let w := yieldEv (.schedule w.ctx.sched) w
+  let w := yieldEv (.protocol w.ctx.st) w
+  let w := yieldEv (.result r) w
+  persistData w
+
+/-- `start_update_check`, success branch. -/
+def finishCheckOk (ok : CheckOk) (w : World) : World :=
+  let w := setLastUpdate w
+  let w := reportAttemptsCheck true w
+  let w := { w with apps := updateFromOmaha w.apps ok.responses }
+  let w := match installSuccess ok.responses with
+    | some s => reportAttemptsInstall s w
+    | none => w
+  closeCheck (.ok ok.responses) w
+
+/-- The failure reason metric: 0 Omaha, 1 Network, 4 Internal. -/
+def failureReason : CheckErr → Nat
+  | .responseParser => 0
+  | .installPlan => 0
+  | .omahaRequest .transport => 1
+  | .omahaRequest .status => 1
+  | .omahaRequest _ => 4
+
+/-- Did the server answer? (An unparseable body or an unusable install plan still counts as
+contact; transport, status, construction and authentication failures do not.) -/
+def talkedToOmaha : CheckErr → Bool
+  | .responseParser => true
+  | .installPlan => true
+  | .omahaRequest _ => false
+
+/-- `start_update_check`, failure branch. -/
+def finishCheckErr (e : CheckErr) (w : World) : World :=
+  let w := if talkedToOmaha e then setLastUpdate w else w
+  let w := metric (.failureReason (failureReason e)) w
+  let w := reportAttemptsCheck false w
+  closeCheck (.error e) w
+
 /-- `start_update_check`: returns whether a reboot is needed; `none` = outside the model. -/
 def startUpdateCheck (params : RequestParams) (w : World) : Option Bool × World :=
   let (res, w) := performUpdateCheck params w.apps w
   match res with
   | none => (none, w)
-  | some (.ok ok) =>
-    let w := setLastUpdate w
-    let installSuccess : Option Bool := ok.responses.foldl (fun acc r =>
-      match acc, r.result with
-      | _, .installError => some false
-      | none, .updated => some true
-      | acc, _ => acc) none
-    let w := reportAttemptsCheck true w
-    let w := { w with apps := updateFromOmaha w.apps ok.responses }
-    let w := match installSuccess with
-      | some s => reportAttemptsInstall s w
-      | none => w
-    let w := yieldEv (.schedule w.ctx.sched) w
-    let w := yieldEv (.protocol w.ctx.st) w
-    let w := yieldEv (.result (.ok ok.responses)) w
-    (some ok.reboot, persistData w)
-  | some (.error e) =>
-    let (reason, w) := match e with
-      | .responseParser => (0, setLastUpdate w)
-      | .installPlan => (0, setLastUpdate w)
-      | .omahaRequest .transport => (1, w)
-      | .omahaRequest .status => (1, w)
-      | .omahaRequest _ => (4, w)
-    let w := metric (.failureReason reason) w
-    let w := reportAttemptsCheck false w
-    let w := yieldEv (.schedule w.ctx.sched) w
-    let w := yieldEv (.protocol w.ctx.st) w
-    let w := yieldEv (.result (.error e)) w
-    (some false, persistData w)
+  | some (.ok ok) => (some ok.reboot, finishCheckOk ok w)
+  | some (.error e) => (some false, finishCheckErr e w)
+
+/-- A failed ping counts as one failed check and is persisted. -/
+def pingFailed (w : World) : World :=
+  persistData { w with ctx := { w.ctx with st := { w.ctx.st with failures := satAdd32 w.ctx.st.failures } } }
+
+/-- A successful ping resets the failure count, is a contact with the server, and updates the
+apps from the response. -/
+def pingSucceeded (response : Resp.Response) (w : World) : World :=
+  let w := { w with ctx := { w.ctx with st := { w.ctx.st with failures := 0 } } }
+  let w := setLastUpdate w
+  let w := yieldEv (.schedule w.ctx.sched) w
+  let w := { w with apps := updateFromOmaha w.apps (makeAppResponses response .noUpdate) }
+  persistData w
 
 /-- `ping_omaha`. -/
 def pingOmaha (w : World) : Option Unit × World :=
@@ -624,19 +659,12 @@ def pingOmaha (w : World) : Option Unit × World :=
   let b := { b with sessionId := some (guidBytes session) }
   let (b, w) := withRequestId b w
   let (res, w) := omahaRequest .ping b w
-  let failed (w : World) : World :=
-    persistData { w with ctx := { w.ctx with st := { w.ctx.st with failures := satAdd32 w.ctx.st.failures } } }
   match res with
-  | .error _ => (some (), failed w)
+  | .error _ => (some (), pingFailed w)
   | .ok body =>
     match Resp.parseJsonResponse body with
     | .outside => (none, w)
-    | .err => (some (), failed w)
-    | .ok response =>
-      let w := { w with ctx := { w.ctx with st := { w.ctx.st with failures := 0 } } }
-      let w := setLastUpdate w
-      let w := yieldEv (.schedule w.ctx.sched) w
-      let w := { w with apps := updateFromOmaha w.apps (makeAppResponses response .noUpdate) }
-      (some (), persistData w)
+    | .err => (some (), pingFailed w)
+    | .ok response => (some (), pingSucceeded response w)
 
 end Omaha.SM
